@@ -27,6 +27,9 @@ type c13Case struct {
 	Mode   string `json:"mode"` // direct | tcp   (Prometheus side)
 	Big    bool   `json:"big,omitempty"`
 	Chunk  int    `json:"chunk,omitempty"`
+	// RefusedAssign: the update that assigns the target is answered with an error because the reload of Prometheus
+	// fails (Prometheus restarting); the sidecar lists the target all the same and Prometheus scrapes it
+	RefusedAssign bool `json:"refusedAssign,omitempty"`
 }
 
 var c13Body = []byte("# HELP http_requests_total The total number of HTTP requests.\n# TYPE http_requests_total counter\n" +
@@ -52,6 +55,8 @@ func c13Cases(tier string) []c13Case {
 		for _, st := range []int{204, 400, 404, 500, 503} {
 			cs = append(cs, c13Case{Kind: "status", Status: st, Mode: m})
 		}
+		// the same outcomes for a target whose assigning update was refused because Prometheus' reload failed
+		cs = append(cs, c13Case{Kind: "none", Mode: m, RefusedAssign: true}, c13Case{Kind: "dial", Mode: m, RefusedAssign: true}, c13Case{Kind: "status", Status: 503, Mode: m, RefusedAssign: true})
 		cs = append(cs, c13Case{Kind: "stall-before", Mode: m})
 		for _, off := range []int{0, 1, 60, len(c13Body) - 1} {
 			cs = append(cs, c13Case{Kind: "stall-mid", Offset: off, Mode: m})
@@ -205,7 +210,7 @@ func runC13Case(w *core.WorkerCtx, idx int, ld *c13Load) *core.CaseResult {
 	cs := c13Cases(w.Tier)
 	c := cs[idx]
 	kind := c13Kind(c)
-	res := &core.CaseResult{Sig: fmt.Sprintf("%s|%s|gz%v|big%v|off%d|st%d", kind, c.Mode, c.Gzip, c.Big, c.Offset, c.Status), Nontrivial: true}
+	res := &core.CaseResult{Sig: fmt.Sprintf("%s|%s|gz%v|big%v|off%d|st%d|refused%v", kind, c.Mode, c.Gzip, c.Big, c.Offset, c.Status, c.RefusedAssign), Nontrivial: true}
 	dir := filepath.Join(w.Scratch, fmt.Sprintf("c13-%d", idx))
 	// only the stall faults need the scrape timeout to fire; everything else gets a timeout no loaded machine reaches
 	timeout := rigLongTimeout
@@ -220,7 +225,31 @@ func runC13Case(w *core.WorkerCtx, idx int, ld *c13Load) *core.CaseResult {
 	defer rg.close()
 	const h = uint64(7)
 	assigned := c.Kind != "unassigned-midbody"
-	if assigned {
+	if assigned && c.RefusedAssign {
+		rg.failReload = true
+		err := rg.assign("j1", h)
+		rg.failReload = false
+		if err == nil {
+			res.Inconcl = "the injected reload failure did not surface"
+			return res
+		}
+		// does the sidecar list the target (GET /api/v1/shard/targets/)? then it is assigned as far as anybody can tell
+		listed := false
+		for _, ts := range rg.in.TM.TargetsInfo().Targets {
+			for _, t := range ts {
+				if t.Hash == h {
+					listed = true
+				}
+			}
+		}
+		if !listed {
+			assigned = false
+		} else if st, err := rg.in.Status(); err == nil && st[h] == nil {
+			res.Violate("C13/no-status-for-listed-target", "the update that assigned target %d was answered with an error (the reload of Prometheus failed); the sidecar lists the target but its status has no entry for it: no scrape of it can show health or be counted", h)
+			return res
+		}
+		res.AddStat("assignments_refused_by_a_failing_reload", 1)
+	} else if assigned {
 		if err := rg.assign("j1", h); err != nil {
 			res.Inconcl = "assign: " + err.Error()
 			return res
@@ -606,6 +635,7 @@ func init() {
 		Rule: "fault = one failure of the real scrape behind the real Proxy.ServeHTTP: connect error, non-200 status {204,400,404,500,503}, stall before headers / mid body beyond the scrape timeout, administrative stop, body breaking off at EVERY wire offset of a 3-chunk body (identity and gzip) with three error kinds {unexpected EOF, generic read error, 'connection reset by peer'}, the same on a multi-block (>64 KiB) body at block boundaries, and over real TCP: short Content-Length body, cut chunked body, RST; " +
 			"each placement observed both through an instrumented ResponseWriter and through a real net/http server+client (the only way to see an aborted response); every case = healthy scrape, faulty scrape, healthy scrape, with /targets/status/ read after each; " +
 			"plus the administrative stop set or lifted while the real request is in flight (identity and gzip, both Prometheus-side modes): the attempt must come out consistently - complete 200 with the full body and health up, or failed response and health down with an error - counter +1 either way; healthy scrapes use a 120 s scrape timeout (only the stall faults use 1 s), and a case whose healthy scrapes time out is repeated up to three times, then inconclusive; " +
+			"plus success / connection error / 503 for a target whose assigning update was answered with an error because the reload of Prometheus failed (the sidecar lists it all the same); " +
 			"non-trivial = every case (each executes a fault or the control); distinct = (kind, Prometheus-side mode, encoding, offset)",
 		Assumptions: []string{
 			"in-memory targets are an http.RoundTripper installed in JobInfo.Cli (exported field); their Read errors repeat once raised, as net/http bodies do",
